@@ -305,6 +305,7 @@ pub struct Runtime {
     /// channel to the scheduler (stall requests)
     pub sched: StdMutex<Option<Arc<crate::sched::Shared>>>,
     default_out: StdMutex<Option<usize>>,
+    default_err: StdMutex<Option<usize>>,
 }
 
 /// One buffered character with its provenance: (char, file, printer call, writing thread).
@@ -350,7 +351,7 @@ const ACCESSORS: &[&str] = &[
 
 const PROCEDURES: &[&str] = &[
     "=", "<", ">", "<=", ">=", "-", "+", "*", "/", "quotient", "logand", "member", "equal?", "string", "format", "display",
-    "make-mutex", "current-output-port", "open-file", "close-port", "dynamic-wind", "xattr?", "xattr-ref-string",
+    "make-mutex", "current-output-port", "current-error-port", "current-warning-port", "open-file", "close-port", "dynamic-wind", "xattr?", "xattr-ref-string",
     "xattr-match?", "call-with-name", "call-with-relative-path", "round-up-power-of-2", "streq?", "streq-ci?", "fnmatch?",
     "fnmatch-ci?", "type->char", "strftime", "localtime", "dirname", "lipe-scan-break", "make-printer", "lipe-scan", "not",
     "newline", "string-append", "number->string", "make-recursive-mutex", "lock-mutex", "unlock-mutex", "list", "cons",
@@ -609,6 +610,7 @@ impl Runtime {
             assigned: StdMutex::new(Default::default()),
             sched: StdMutex::new(None),
             default_out: StdMutex::new(None),
+            default_err: StdMutex::new(None),
         }
     }
 
@@ -870,6 +872,21 @@ impl Runtime {
         let id = ports.len() - 1;
         drop(ports);
         self.ev(Ev::OpenPort { port: id, dest: "stdout".to_string() });
+        *d = Some(id);
+        id
+    }
+
+    /// `(current-error-port)`: one port object per process, on the destination "stderr"
+    fn error_port(&self) -> usize {
+        let mut d = self.default_err.lock().unwrap();
+        if let Some(p) = *d {
+            return p;
+        }
+        let mut ports = self.ports.lock().unwrap();
+        ports.push(PortSt { dest: "stderr".to_string(), open: true, buf: vec![], cursor: 0, generation: 0, capture: None });
+        let id = ports.len() - 1;
+        drop(ports);
+        self.ev(Ev::OpenPort { port: id, dest: "stderr".to_string() });
         *d = Some(id);
         id
     }
@@ -2273,6 +2290,7 @@ impl Runtime {
                 Ok(Val::Unspec)
             }
             "current-output-port" => Ok(Val::Port(self.default_port())),
+            "current-error-port" | "current-warning-port" => Ok(Val::Port(self.error_port())),
             "current-output-port" | "open-file" => {
                 let dest = if name == "open-file" {
                     // the standard streams under their other names are the same kernel objects as the
